@@ -63,7 +63,6 @@ PRODUCERS = [
      ["outer{n}()", "outer{n}()(1)", "wrapped{n}", "wrapped{n}(1)", "lam{n}", "lam{n}(1)"]),
     ("dunder", 0, "class Cmp{n}:\n  def __eq__(self, o):\n    return True\n  def __lt__(self, o):\n    return False\n  def __hash__(self):\n    return 1\n  def __getitem__(self, i):\n    return i\n  def __call__(self, *a):\n    return a\n  def __class_getitem__(cls, item):\n    return cls\n",
      ["Cmp{n}()", "Cmp{n}()(1, 'a')", "Cmp{n}()[0]", "Cmp{n}() < 1"]),
-    ("lower", 0, "class zed{n}:\n  pass\nclass c{n}:\n  pass\n", ["c{n}()", "zed{n}()", "c{n}"]),
     ("alias", 1, "import collections\nclass TreeNode{n}:\n  def __init__(self, label):\n    self.label = label\nNode{n} = TreeNode{n}\nmod{n} = collections\n",
      ["Node{n}('r')", "TreeNode{n}", "mod{n}.OrderedDict()", "Node{n}"]),
     ("containers", 1, "", ["[1, 'a', None]", "{'k': (1, 2.5)}", "{1, 'a'}", "(1, ('a', [b'b']))", "[]", "{}", "(1.0, 2)", "((1.0,), 2)", "None", "1", "'s'"]),
